@@ -554,13 +554,14 @@ def load_known_findings():
 
 
 def write_evidence(prop, tier, seed, coverage, assumptions, wall_s, violations, level="proof"):
-    os.makedirs(os.path.join(VERIF, "evidence"), exist_ok=True)
+    evdir = os.environ.get("VERIF_EVIDENCE_DIR") or os.path.join(VERIF, "evidence")   # seeded evaluations write elsewhere
+    os.makedirs(evdir, exist_ok=True)
     ev = {
         "property_id": prop, "tier": tier, "seed": seed, "level": level,
         "coverage": coverage, "assumptions": assumptions,
         "wall_s": round(wall_s, 2), "violations": violations,
     }
-    with open(os.path.join(VERIF, "evidence", f"{prop}.json"), "w") as f:
+    with open(os.path.join(evdir, f"{prop}.json"), "w") as f:
         json.dump(ev, f, indent=1, default=repr)
     return ev
 
